@@ -19,10 +19,9 @@ def extra_jobs(tier):
     # rejections that come from other internal steps: the second of two loans of an auto-borrow order failing with a
     # plain Error (no lending conditions for the quote symbol) - the first loan must be rolled back
     ps = []
-    for ar in (False, True):
-        ps.append(dict(plan="loans", depth=2, bp=8, qp=2, lend="margin_base_only", namounts=2, closes=hist.CLOSES,
-                       kinds=["limit", "market"], sides=["sell"], auto_borrow=True, auto_repay=ar, loan_symbol="BTC",
-                       min_fee="5"))
+    ps.append(dict(plan="loans", depth=2, bp=8, qp=2, lend="margin_base_only", namounts=2, closes=hist.CLOSES,
+                   kinds=["limit", "market"], sides=["sell"], auto_borrow=True, auto_repay=True, loan_symbol="BTC",
+                   min_fee="5"))
     # an auto-borrow order placed while another open order already holds part of the paying symbol
     ps.append(dict(plan="pair", depth=2, bp=8, qp=2, lend="margin", namounts=1, closes=hist.CLOSES, kinds=["limit"],
                    sides=["buy"], second="compete", second_auto_borrow=True, split=32))
